@@ -2,6 +2,7 @@ import PyImpSpec.Gen.Elements
 import PyImpSpec.Cdc.Model
 import PyImpSpec.DataSet.Model
 import PyImpSpec.Param.Model
+import PyImpSpec.Impedance.CQ
 
 /-! Line-protocol driver: one request per line (`<model> <op> <args…>`), one canonical reply per line.
 Run with `lake env lean --run Driver/Main.lean`.  The harness sends the same inputs to the real
@@ -60,6 +61,29 @@ def classDefaults (sym : String) : List PV :=
   match Gen.elemTable.find? (·.sym = sym) with
   | some d => d.params.map fun pd => { key := pd.key, value := pd.value, lo := pd.lo, hi := pd.hi, fixed := pd.fixed }
   | none => []
+
+
+/-! ### impedance composition (exact complex rationals) -/
+
+def parseRat (s : String) : Rat :=
+  match s.splitOn "/" with
+  | [n, d] => mkRat n.toInt! d.toNat!
+  | [n] => mkRat n.toInt! 1
+  | _ => 0
+
+def parseEntry (s : String) : Imp.XV Imp.CQ :=
+  if s = "inf" then .inf
+  else match s.splitOn "|" with
+    | [a, b] => .fin ⟨parseRat a, parseRat b⟩
+    | _ => .inf
+
+def impReply (n : Nat) (toks : List String) : String :=
+  match Imp.parseTree n parseEntry (toks.length + 1) toks with
+  | some (t, []) =>
+    match Imp.circuitImpl n t with
+    | some v => "ok " ++ " ".intercalate (v.map Imp.CQ.show)
+    | none => "err InfiniteImpedance"
+  | _ => "bad-op"
 
 /-! ### DataSet -/
 
@@ -196,6 +220,7 @@ def step (st : DState) (line : String) : DState × String :=
   | ["cdc", fl] => (st, cdcReply fl "")
   | "ds" :: args => dsStep st args
   | "pa" :: args => paStep st args
+  | "imp" :: n :: toks => (st, impReply n.toNat! toks)
   | _ => (st, "bad-op")
 
 partial def loop (h : IO.FS.Stream) (st : DState) : IO Unit := do
